@@ -9,7 +9,11 @@ decorator base forwards every interface method (both directions); (R4) the rebui
 run the same pipeline (rewind, then _reduce_tick per tick, in log order); (R5) reducer purity: no
 I/O, clock, randomness, await or mutation through the `init`/`tick` parameters in anything
 _reduce_tick reaches, and the `now_seconds` argument influences timestamps only — it must not
-reach a branch condition or an argument of user policy code.
+reach a branch condition or an argument of user policy code; (R6) the log that replay() pairs with
+init_state is this run's log: a new queues object starts with an empty log and records the
+init_state it was created with, nothing but on_tick's append writes either, run_workflow can only
+*create* queues (it refuses a run id that still has queues) and starts the loop from that same
+init_state.
 Not decided: equality of concrete states (pydantic/dataclass copies are trusted).
 """
 
@@ -24,7 +28,7 @@ from ..selftest import Twin
 from ._engine import CL, CL_REL, RUNNER, param
 
 EXPLANATION = __doc__.split("\n\n", 1)[1]
-TECHNIQUE = 'static analysis: ownership of runner state, record-before-commands dominance, interface-forwarding inventory, reducer purity/effect lint, now_seconds taint'
+TECHNIQUE = 'static analysis: ownership of runner state, record-before-commands dominance, interface-forwarding inventory, reducer purity/effect lint, now_seconds taint, log/init_state freshness per run (path facts + single-writer inventory)'
 TRUSTED = ["CPython ast", "dataclass/pydantic copy semantics"]
 PLUG = "workflows.runtime.types.plugin"
 DEC = "workflows.runtime.runtime_decorators"
